@@ -207,7 +207,13 @@ pub struct Report {
     /// event-log digest: hash over every observation of every run, in order.
     pub event_digest: u64,
     pub skipped: BTreeMap<String, u64>,
+    /// occurrences per violation class "oracle\u{1}key" (only the first few records of a class are kept in full)
+    #[serde(default)]
+    pub violation_counts: BTreeMap<String, u64>,
 }
+
+/// Full violation records kept per class and worker; further occurrences are only counted.
+pub const KEEP_PER_CLASS: u64 = 3;
 
 impl Report {
     pub fn fault(&mut self, kind: &str) {
@@ -288,7 +294,13 @@ impl Report {
         for (k, v) in o.skipped {
             *self.skipped.entry(k).or_insert(0) += v;
         }
-        self.violations.extend(o.violations);
+        for v in o.violations {
+            let n = self.violation_counts.entry(format!("{}\u{1}{}", v.oracle, v.key)).or_insert(0);
+            *n += 1;
+            if *n <= KEEP_PER_CLASS {
+                self.violations.push(v);
+            }
+        }
         for s in o.samples {
             self.sample(s);
         }
